@@ -25,7 +25,7 @@ NotConnectedWhenDisabled == ~st.enabled => st.cs = "NC"
 OpenOnlyWhenConnected == st.openSel => (st.cs # "NC" /\ st.mode = "active")
 NeverDeliverUnlessSelected == (out.dlv \/ out.rep) => st.cs = "SEL"
 DataInNotSelectedRejected ==
-   (inp.k \in {"Data", "DataFor"} /\ ~out.dlv /\ ~out.rep) => out.req = <<Fr("Reject.req", "echo", 4)>>
+   (inp.k \in {"Data", "DataFor", "PrimaryFor"} /\ ~out.dlv /\ ~out.rep) => out.req = <<Fr("Reject.req", "echo", 4)>>
 EveryRequestAnsweredOnce ==
    (inp.k = "Ctrl" /\ inp.st \in CtrlReq) => (Len(out.req) = 1 /\ out.req[1].sys = "echo")
 SelectedOnlyBySelect == [][(st.cs # "SEL" /\ st'.cs = "SEL") =>
